@@ -99,8 +99,10 @@ env_step(void)
     else if (c == 4 && abort_stage == 1) { ring.is_accepting_writes = 0; abort_stage = 2; if (sleeping) woken = 1; }
 #elif SCN == 3
     else if (c == 3 && !sink_dead) {
-        /* sink error path: sig_stop_source; channel_read_unmap(in, reader, 0) (broadcast); never reads again */
+        /* sink error path (checked against the real sink.c by the sink unit, SCN 1): sig_stop_source;
+         * channel_accept_writes(in, 0); channel_read_unmap(in, reader, 0); never reads again */
         src.is_stopping = 1;
+        ring.is_accepting_writes = 0;
         if (sleeping) woken = 1;
         sink_dead = 1;
     }
@@ -160,6 +162,14 @@ void thread_init(struct thread* t) { t->is_live_ = 0; }
 uint8_t thread_create(struct thread* t, void (*p)(void*), void* a) { return 1; }
 void thread_join(struct thread* t) {}
 
+/* C08: the runtime derives Running/Armed from the workers' is_running flags, so a worker must
+ * not clear its flag while it still has a device call to make */
+static int stop_while_flag_cleared;
+static void
+on_cam_stop(int cam)
+{
+    if (!main_done && !src.is_running) ++stop_while_flag_cleared;
+}
 static void sig_filter(const struct video_source_s* s) { ++stop_filter_calls; }
 static void
 sig_sink(const struct video_source_s* s)
@@ -172,16 +182,36 @@ static void await_reset(const struct video_source_s* s) {}
 #if MODE == 2
 /* camera with a fully symbolic shape */
 static struct ImageShape sym_shape;
+#ifdef TWO_FRAMES
+/* the camera's shape may change during a running acquisition (re-configuration of a live
+ * camera): frame 0 has a fixed 1-byte image (so frame 1's header sits at a concrete offset),
+ * frame 1 has the fully symbolic shape; every frame must be sized and described by ITS OWN shape */
+static struct ImageShape shape0;
+static int frames_served;
+#endif
 static enum DeviceStatusCode
 sym_get_shape(const struct Camera* c, struct ImageShape* s)
 {
+#ifdef TWO_FRAMES
+    *s = frames_served == 0 ? shape0 : sym_shape;
+#else
     *s = sym_shape;
+#endif
     return Device_Ok;
 }
 static enum DeviceStatusCode
 sym_get_frame(struct Camera* c, void* im, size_t* nbytes, struct ImageInfo* info)
 {
     VASSERT(im == (void*)(ring.data + ring.head + sizeof(struct VideoFrame)), "pixel pointer is not right after the header");
+#ifdef TWO_FRAMES
+    if (frames_served == 0) {
+        info->shape = shape0; info->hardware_frame_id = 6; info->hardware_timestamp = 8;
+        VASSERT(*nbytes == 1, "size passed to the camera is not the image size (frame 0)");
+        ++frames_served;
+        return Device_Ok;
+    }
+    ++frames_served;
+#endif
     info->shape = sym_shape;
     info->hardware_frame_id = 7;
     info->hardware_timestamp = 9;
@@ -221,8 +251,10 @@ main(void)
     VASSERT(camera_start(cam) == Device_Ok, "camera_start");
     src.is_stopping = 0;
     src.is_running = 1;
+    mock_cam_stop_hook = on_cam_stop;
     int ecode = video_source_thread(&src);
     main_done = 1;
+    VASSERT(stop_while_flag_cleared == 0, "C08: the source worker cleared is_running before its last device call (camera stop): the runtime reports Armed while the worker is still alive");
     /* the committed stream, in commit order, is the tape [0, head) */
     { struct slice all = { ring.data, ring.data + ring.head }; check_slice(all); }
     int delivered = CAM[0].frames_this_run;
@@ -243,9 +275,10 @@ main(void)
     VASSERT(src.is_running == 0 && src.is_stopping == 0, "C07: source flags not reset");
     VASSERT(!verif_lock_is_held(&ring.lock), "ring lock left held");
     VASSERT(CAM[0].viol == 0, "C08/C11: camera protocol violated");
-    COVER(verif_wait_count >= 1);
+#if SCN == 0
     COVER(chan_blocked_waits >= 1 && chk_frames == (int)N);
     COVER(chk_frames == NMAX);
+#endif
 #if SCN == 1
     COVER(abort_stage == 2 && verif_wait_count >= 1);
 #endif
@@ -269,18 +302,26 @@ main(void)
     size_t cap = (((size_t)1) << 40);
     memset(&ring, 0, sizeof ring);
     ring.capacity = cap;
-    ring.data = malloc(128); /* only the 96-byte header at offset 0 is ever written (mock camera writes no pixels) */
+    ring.data = malloc(256); /* only 96-byte headers at offsets 0 (and 104) are ever written (mock camera writes no pixels) */
+#ifdef TWO_FRAMES
+    shape0 = mock_shape(); shape0.dims.width = 1; shape0.strides.height = 1; shape0.strides.planes = 1;
+#endif
     VASSUME(ring.data != 0 && ((uintptr_t)ring.data & 7) == 0);
     ring.is_accepting_writes = 1;
     lock_init(&ring.lock);
     ring.head = 0; /* concrete: a symbolic index into a 2^40-byte object cannot be flattened */
+#ifdef TWO_FRAMES
+    size_t head0 = 104; /* frame 0: 96 + 1 byte rounded up */
+    video_source_init(&src, 0, 2, &ring, 0, await_reset, sig_filter, sig_sink);
+#else
     size_t head0 = ring.head;
     video_source_init(&src, 0, 1, &ring, 0, await_reset, sig_filter, sig_sink);
+#endif
     src.camera = cam;
     VASSERT(camera_start(cam) == Device_Ok, "camera_start");
     src.is_running = 1;
+    main_done = 1; /* no environment in this mode (ring without readers) */
     int ecode = video_source_thread(&src);
-    main_done = 1;
     VASSERT(ecode == 0, "source thread failed");
     size_t bpt = (ty == SampleType_u8 || ty == SampleType_i8) ? 1 : (ty == SampleType_f32 ? 4 : 2);
     size_t sz = (size_t)sym_shape.strides.planes * bpt;
@@ -294,7 +335,13 @@ main(void)
                   f->shape.dims.planes == sym_shape.dims.planes && f->shape.strides.planes == sym_shape.strides.planes && f->shape.strides.height == sym_shape.strides.height &&
                   f->shape.strides.width == sym_shape.strides.width && f->shape.strides.channels == sym_shape.strides.channels && f->shape.type == sym_shape.type,
                 "C05: frame shape differs from the shape the camera reported");
+#ifdef TWO_FRAMES
+        VASSERT(f->frame_id == 1 && f->hardware_frame_id == 7 && f->timestamps.hardware == 9, "C04: ids / timestamps");
+        { const struct VideoFrame* f0 = (const struct VideoFrame*)ring.data;
+          VASSERT(f0->bytes_of_frame == 104 && f0->frame_id == 0 && f0->shape.dims.width == 1, "C05: first frame (1-byte image) not framed as 104 bytes"); }
+#else
         VASSERT(f->frame_id == 0 && f->hardware_frame_id == 7 && f->timestamps.hardware == 9, "C04: ids / timestamps");
+#endif
         VASSERT((((uintptr_t)f) & 7) == 0, "C05: header not 8-byte aligned");
     } else {
         VASSERT(ring.head == head0, "zero-sized image must not be committed");
